@@ -215,7 +215,9 @@ TEXTS = {
     "C13": {
         "text": "Theorems (Properties/C13.v, about the Gallina transcription): without_obsolete / with_replaced_obsolete are exactly the stated "
                 "filter / substitution, child_nodes keeps exactly the members that are no ancestor of any member, without_modifier exactly the "
-                "non-modifier members (results strictly ascending, membership characterised), in-place variants equal the copying ones. spec_C13 "
+                "non-modifier members (results strictly ascending, membership characterised), in-place variants equal the copying ones; the gene / "
+                "OMIM / ORPHA ids of a set are the union over its members (a sorted set), category counts count the members per category, the "
+                "aggregated information content is calculate(records, size of the union) for genes and OMIM. spec_C13 "
                 "states child_nodes, modifier filter, unions of annotation ids, category counts and aggregated IC against the observation and "
                 "is evaluated on the crate's observation of every generated set; model and crate are diffed.",
         "design_ref": "DESIGN.md §4 C13", "note": NOTE_COMMON, "technique": TECH,
